@@ -7,7 +7,22 @@ W1_COMPONENTS = {
              "DNS server -> scripted sim server"],
 }
 
+W3_COMPONENTS = {
+    "real": ["pkg/cache.Cache, pkg/concurrent_map (instrumented: every lock/atomic is a preemption point)", "plugin/executable/cache dump/load (C19)", "klauspost gzip, protobuf, miekg/dns"],
+    "stub": ["Go scheduler/map order/maphash -> simrt PRNG", "wall clock/ticker -> synctest bubble clock", "file system -> simdisk (C19)"],
+}
+
 PROPS = {
+    "C11": {
+        "level": "exploration",
+        "race": True,
+        "quick_runs": 6000, "quick_budget_s": 90,
+        "thorough_budget_s": 600,
+        "rule": "C11 scenario: 2-8 tasks x Get/Store/Flush/Len/Range on pkg/cache with colliding shards, unique values, expiries around now, cleaner running; sizes from {-5,0,1,10,63,64,100,1024,1100}; bulk sub-scenario stores >1024 distinct keys. History checked with porcupine (<=60 ops); same seeds also run in a -race build whose scheduler hand-offs are invisible to the race detector.",
+        "components": W3_COMPONENTS,
+        "cfg_dist_keys": ["size", "tasks", "bulk"],
+        "technique": "deterministic simulation: PRNG scheduler over instrumented locks + virtual clock; porcupine linearizability check of the recorded history against a lossy-map model; race detector under the simulated schedule",
+    },
     "C17": {
         "level": "exploration",
         "quick_runs": 5000, "quick_budget_s": 45,
